@@ -41,7 +41,8 @@ public:
       GetMC().AddConstraint(std::move(qc));
     } else {
       // Reproduce fixed RHS, better for Mosek & COPT. conic/socp_10
-      auto rhs = -c[0] * GetMC().fixed_value(x[0]);
+      auto x0val = GetMC().fixed_value(x[0]);
+      auto rhs = -c[0] * x0val * x0val;      // (c[0]*x[0])^2
       c.erase(c.begin());
       auto x0 = x;
       x0.erase(x0.begin());
